@@ -7,6 +7,7 @@ other options carry cost 0 (free: forced environment choice at quiescence) or 1
 the harness from scratch for every choice sequence whose total cost is within the
 budget (the Go idiom in the brief's guidance).
 """
+import gc
 import hashlib
 import json
 import time
@@ -142,6 +143,10 @@ def explore(run, params, budget, *, start_prefix=(), max_exec=None,
         ch = Chooser(prefix)
         out = run(params, ch)
         st.executions += 1
+        if st.executions % 256 == 0:
+            # every execution leaves a few KB of cyclic garbage (loop <-> tasks <-> frames);
+            # the automatic full collections come too rarely for runs of 10^5 executions
+            gc.collect()
         n = len(ch.trace)
         st.max_depth = max(st.max_depth, n)
         st.max_cost = max(st.max_cost, ch.cost)
